@@ -2,16 +2,21 @@
 
 Translated (regenerated on every check run, compared with the committed cache):
   unicode.c   encode_utf8, decode_utf8 (arithmetic, thresholds, masks), is_ident1/is_ident2 range tables
-  tokenize.c  read_utf16_string_literal surrogate arithmetic; convert_pp_int: base-prefix ladder, suffix ladder,
+  tokenize.c  from_hex, read_escaped_char (octal arm, hexadecimal arm and its loop), read_universal_char, string_literal_end:
+              whole functions, statement by statement (cursor.py), into Gen/LitReadersGen.lean;
+              read_string_literal, read_utf16_string_literal, read_utf32_string_literal, read_char_literal: prologue and
+              epilogue by shape, the loop bodies statement by statement (calls with `&p` bind value and new position);
+              canonicalize_newline, remove_backslash_newline, convert_universal_chars: whole functions with the exact
+              semantics of the in-place array rewriting (every store threaded through the buffer, a store outside the
+              text is `none`), same file;
+              read_utf16_string_literal surrogate arithmetic; convert_pp_int: base-prefix ladder, suffix ladder,
               type ladder with the `>> 31`, `>> 32`, `>> 63` tests exactly as written; convert_pp_number suffix -> type;
               read_escaped_char simple-escape switch (values as the host compiler evaluates them: clang-14 AST);
               per-prefix dispatch of tokenize() (reader, element type, post-processing of character constants)
   type.c      size / signedness of the ty_* objects used above
 Pinned (hand-modelled in Model/Literals.lean, Model/Text.lean; the translator only checks that the source text still has
 the shape the hand model was written after, and raises ExtractError otherwise):
-  read_escaped_char octal/hex arms, read_string_literal / read_utf16_string_literal / read_utf32_string_literal /
-  read_char_literal loops, canonicalize_newline, remove_backslash_newline, read_universal_char,
-  convert_universal_chars, the BOM test in tokenize_file, preprocess.c getStringKind / join_adjacent_string_literals,
+  the pp-number scan of tokenize(), tokenize_string_literal, the BOM test and the order of the phases in tokenize_file, preprocess.c getStringKind / join_adjacent_string_literals,
   parse.c string_initializer.
 """
 import re, hashlib
@@ -470,12 +475,15 @@ def gen_pp_number(src):
     body = fn_body(src, 'convert_pp_number', r'^static\s+void\s+convert_pp_number\s*\(\s*Token\s*\*\s*tok\s*\)\s*\{')
     m = re.fullmatch(
         r"if \(convert_pp_int\(tok\)\) return; char \*end; long double val = strtold\(tok->loc, &end\); Type \*ty; "
-        r"if \(\*end == '(\w)' \|\| \*end == '(\w)'\) \{ ty = (ty_\w+); end\+\+; \} "
-        r"else if \(\*end == '(\w)' \|\| \*end == '(\w)'\) \{ ty = (ty_\w+); end\+\+; \} else \{ ty = (ty_\w+); \} "
+        r"if \(\*end == '(\w)' \|\| \*end == '(\w)'\) \{ ty = (ty_\w+); (?:val = strto(?:f|d|ld)\(tok->loc, NULL\); )?end\+\+; \} "
+        r"else if \(\*end == '(\w)' \|\| \*end == '(\w)'\) \{ ty = (ty_\w+); (?:val = strto(?:f|d|ld)\(tok->loc, NULL\); )?end\+\+; \} "
+        r"else \{ ty = (ty_\w+); (?:val = strto(?:f|d|ld)\(tok->loc, NULL\); )?\} "
         r'if \(tok->loc \+ tok->len != end\) error_tok\(tok, "invalid numeric constant"\); '
         r"tok->kind = TK_NUM; tok->fval = val; tok->ty = ty;", norm(body))
     if not m:
         raise ExtractError('convert_pp_number has a shape the translator does not understand: ' + norm(body))
+    # (the value is libc's: `strtold`, or — since the fix "a floating constant is rounded once, to its own type" — `strtof` / `strtod`
+    #  of the same text; values are compared with gcc bit for bit by the end-to-end leg and are not modelled)
     a1, a2, t1, b1, b2, t2, t3 = m.groups()
     for t in (t1, t2, t3):
         if t not in TY_KNOWN:
@@ -532,7 +540,6 @@ def gen_escape(repo, src):
         raise ExtractError('read_escaped_char: default arm is not `return *p;`')
     if not re.search(r'\*new_pos = p \+ 1; switch \(\*p\) \{', nb):
         raise ExtractError('read_escaped_char: simple-escape arm does not consume exactly one byte')
-    pin(nb[:nb.index('*new_pos = p + 1; switch')], PIN_ESC_NUMERIC, 'read_escaped_char octal/hex arms')
     out = '/-- tokenize.c `read_escaped_char`, the `switch (*p)` (selector byte, value); the values of the character constants\n'
     out += "    ('\\a' ...) are those computed by the compiler that compiles chibicc (here: clang-14's AST).  Default arm: `return *p`. -/\n"
     out += 'def simpleEscapes : List (Nat × Nat) := [' + ', '.join(f'({a}, {b})' for a, b in table) + ']\n'
@@ -546,52 +553,13 @@ def pin(text, expected, what):
         raise ExtractError(f'{what}: source text changed; the hand model (Model/Literals.lean, Model/Text.lean) was written after a '
                            f'different text.  now: {norm(text)[:300]}')
 
-PIN_ESC_NUMERIC = r"""if ('0' <= *p && *p <= '7') { int c = *p++ - '0'; if ('0' <= *p && *p <= '7') { c = (c << 3) + (*p++ - '0');
- if ('0' <= *p && *p <= '7') c = (c << 3) + (*p++ - '0'); } *new_pos = p; return c; }
- if (*p == 'x') { p++; if (!isxdigit(*p)) error_at(p, "invalid hex escape sequence"); int c = 0;
- for (; isxdigit(*p); p++) c = ((unsigned)c << 4) + from_hex(*p); *new_pos = p; return c; }"""
-
 PINS_TOKENIZE = {
-    'from_hex': (r'^static\s+int\s+from_hex\s*\(char c\)\s*\{',
-                 r"""if ('0' <= c && c <= '9') return c - '0'; if ('a' <= c && c <= 'f') return c - 'a' + 10; return c - 'A' + 10;"""),
-    'string_literal_end': (r'^static\s+char\s*\*\s*string_literal_end\s*\(char \*p\)\s*\{',
-                 r"""char *start = p; for (; *p != '"'; p++) { if (*p == '\n' || *p == '\0') error_at(start, "unclosed string literal");
-                 if (*p == '\\' && p[1]) p++; } return p;"""),
-    'read_string_literal': (r'^static\s+Token\s*\*\s*read_string_literal\s*\(char \*start, char \*quote\)\s*\{',
-                 r"""char *end = string_literal_end(quote + 1); char *buf = calloc(1, end - quote); int len = 0;
-                 for (char *p = quote + 1; p < end;) { if (*p == '\\') buf[len++] = read_escaped_char(&p, p + 1); else buf[len++] = *p++; }
-                 Token *tok = new_token(TK_STR, start, end + 1); tok->ty = array_of(ty_char, len + 1); tok->str = buf; return tok;"""),
-    'read_utf32_string_literal': (r'^static\s+Token\s*\*\s*read_utf32_string_literal\s*\(char \*start, char \*quote, Type \*ty\)\s*\{',
-                 r"""char *end = string_literal_end(quote + 1); uint32_t *buf = calloc(4, end - quote); int len = 0;
-                 for (char *p = quote + 1; p < end;) { if (*p == '\\') buf[len++] = read_escaped_char(&p, p + 1); else buf[len++] = decode_utf8(&p, p); }
-                 Token *tok = new_token(TK_STR, start, end + 1); tok->ty = array_of(ty, len + 1); tok->str = (char *)buf; return tok;"""),
-    'read_char_literal': (r'^static\s+Token\s*\*\s*read_char_literal\s*\(char \*start, char \*quote, Type \*ty\)\s*\{',
-                 r"""char *p = quote + 1; if (*p == '\0') error_at(start, "unclosed char literal"); int c;
-                 if (*p == '\\' && p[1] == '\0') error_at(start, "unclosed char literal");
-                 if (*p == '\\') c = read_escaped_char(&p, p + 1); else c = decode_utf8(&p, p);
-                 char *end = strchr(p, '\''); if (!end) error_at(p, "unclosed char literal");
-                 Token *tok = new_token(TK_NUM, start, end + 1); tok->val = c; tok->ty = ty; return tok;"""),
     'tokenize_string_literal': (r'^Token\s*\*\s*tokenize_string_literal\s*\(Token \*tok, Type \*basety\)\s*\{',
                  r"""Token *t; if (basety->size == 2) t = read_utf16_string_literal(tok->loc, tok->loc);
                  else t = read_utf32_string_literal(tok->loc, tok->loc, basety);
                  t->file = tok->file; t->filename = tok->filename; t->line_no = tok->line_no; t->line_delta = tok->line_delta;
                  t->at_bol = tok->at_bol; t->has_space = tok->has_space; t->origin = tok->origin;
                  t->next = tok->next; return t;"""),
-    'canonicalize_newline': (r'^static\s+void\s+canonicalize_newline\s*\(char \*p\)\s*\{',
-                 r"""int i = 0, j = 0; while (p[i]) { if (p[i] == '\r' && p[i + 1] == '\n') { i += 2; p[j++] = '\n'; }
-                 else if (p[i] == '\r') { i++; p[j++] = '\n'; } else { p[j++] = p[i++]; } } p[j] = '\0';"""),
-    'remove_backslash_newline': (r'^static\s+void\s+remove_backslash_newline\s*\(char \*p\)\s*\{',
-                 r"""int i = 0, j = 0; int n = 0; while (p[i]) { if (p[i] == '\\' && p[i + 1] == '\n') { i += 2; n++; }
-                 else if (p[i] == '\n') { p[j++] = p[i++]; for (; n > 0; n--) p[j++] = '\n'; } else { p[j++] = p[i++]; } }
-                 for (; n > 0; n--) p[j++] = '\n'; p[j] = '\0';"""),
-    'read_universal_char': (r'^static\s+uint32_t\s+read_universal_char\s*\(char \*p, int len\)\s*\{',
-                 r"""uint32_t c = 0; for (int i = 0; i < len; i++) { if (!isxdigit(p[i])) return 0; c = (c << 4) | from_hex(p[i]); } return c;"""),
-    'convert_universal_chars': (r'^static\s+void\s+convert_universal_chars\s*\(char \*p\)\s*\{',
-                 r"""char *q = p; while (*p) { if (startswith(p, "\\u")) { uint32_t c = read_universal_char(p + 2, 4);
-                 if (c && c != '\n') { p += 6; q += encode_utf8(q, c); } else { *q++ = *p++; } }
-                 else if (startswith(p, "\\U")) { uint32_t c = read_universal_char(p + 2, 8);
-                 if (c && c != '\n') { p += 10; q += encode_utf8(q, c); } else { *q++ = *p++; } }
-                 else if (p[0] == '\\') { *q++ = *p++; *q++ = *p++; } else { *q++ = *p++; } } *q = '\0';"""),
 }
 
 PIN_TOKENIZE_FILE = r"""if (!memcmp(p, "\xef\xbb\xbf", 3)) p += 3; canonicalize_newline(p); remove_backslash_newline(p); convert_universal_chars(p);"""
@@ -747,13 +715,127 @@ def gen_readers(repo, src):
     take(f)
     defs.append(sle)
 
+    # ---- canonicalize_newline(char *p), remove_backslash_newline(char *p): in-place rewriting with exact array semantics
+    body = fn_body(src, 'canonicalize_newline', r'^static\s+void\s+canonicalize_newline\s*\(\s*char\s*\*\s*p\s*\)\s*\{')
+    f = cursor.RewriteFn('canonicalize_newline', 'canonicalizeNewline', ['i', 'j'])
+    defs.append(cursor.REWRITE_PREAMBLE + f.translate(parse_body(body),
+                'tokenize.c `canonicalize_newline(p)` on the array `buf`: the text left in the array, `none` = a store outside the text'))
+    body = fn_body(src, 'remove_backslash_newline', r'^static\s+void\s+remove_backslash_newline\s*\(\s*char\s*\*\s*p\s*\)\s*\{')
+    f = cursor.RewriteFn('remove_backslash_newline', 'removeBackslashNewline', ['i', 'j', 'n'])
+    defs.append(f.translate(parse_body(body),
+                'tokenize.c `remove_backslash_newline(p)` on the array `buf`: the text left in the array, `none` = a store outside the text'))
+
+    body = fn_body(src, 'convert_universal_chars', r'^static\s+void\s+convert_universal_chars\s*\(\s*char\s*\*\s*p\s*\)\s*\{')
+    f = cursor.PtrRewriteFn('convert_universal_chars', 'convertUniversalChars', ['p', 'q'])
+    defs.append(cursor.PTR_PREAMBLE + f.translate(parse_body(body),
+                'tokenize.c `convert_universal_chars(p)` on the array `buf`: the text left in the array, `none` = a store outside the text'))
+
+    # ---- the string-literal readers and read_char_literal
+    derr = decode_error_ctor(repo)
+    rd_errors = []
+    sig = r'^static\s+Token\s*\*\s*%s\s*\(\s*char\s*\*\s*start\s*,\s*char\s*\*\s*quote\s*%s\)\s*\{'
+    rd = [gen_string_reader(src, 'read_string_literal', 'readStringLiteral', sig % ('read_string_literal', ''), 'char', 8, 1, 'quote',
+                            'ty_char', derr, rd_errors),
+          gen_string_reader(src, 'read_utf16_string_literal', 'readUtf16StringLiteral', sig % ('read_utf16_string_literal', ''), 'uint16_t', 16, 2,
+                            'start', 'ty_ushort', derr, rd_errors),
+          gen_string_reader(src, 'read_utf32_string_literal', 'readUtf32StringLiteral',
+                            sig % ('read_utf32_string_literal', r',\s*Type\s*\*\s*ty\s*'), 'uint32_t', 32, 4, 'quote', 'ty', derr, rd_errors),
+          gen_char_reader(src, derr, rd_errors)]
+    for c in rd_errors:
+        if c not in errors:
+            errors.append(c)
+    defs.append(cursor.READER_PREAMBLE + '\n'.join(rd))
+
     out = HEADER.format(tool='literals.py (+cursor.py, cmini.py)', src='tokenize.c')
-    out += 'import ChibiVerif.Gen.LiteralsGen\n\nnamespace ChibiVerif.Gen.LitReaders\nopen ChibiVerif.Gen.Literals\n\n'
+    out += 'import ChibiVerif.Gen.LiteralsGen\n\nset_option linter.unusedVariables false\n\nnamespace ChibiVerif.Gen.LitReaders\nopen ChibiVerif.Gen.Literals\n\n'
     out += READERS_PREAMBLE
     out += '/-- the `error_at` sites of the translated functions, named after their messages -/\ninductive ReadErr\n'
     out += ''.join(f'  | {c}\n' for c in errors) + '  deriving DecidableEq, Repr\n\n'
     out += '\n'.join(defs)
     out += '\nend ChibiVerif.Gen.LitReaders\n'
+    return out
+
+
+# ------------------------------------------------------------------ translated literal readers (Gen/LitReadersGen.lean, second part)
+
+def decode_error_ctor(repo):
+    usrc = strip_comments(read(repo, 'unicode.c'))
+    body = fn_body(usrc, 'decode_utf8', r'^uint32_t\s+decode_utf8\s*\(\s*char\s*\*\*\s*new_pos\s*,\s*char\s*\*\s*p\s*\)\s*\{')
+    msgs = set(re.findall(r'error_at\s*\(\s*\w+\s*,\s*"((?:\\.|[^"\\])*)"', body))
+    if len(msgs) != 1:
+        raise ExtractError(f'decode_utf8: expected one diagnostic message, found {sorted(msgs)}')
+    return cursor.err_ctor(msgs.pop())
+
+
+def gen_string_reader(src, cname, lean_name, sig, elem_c, elem_bits, calloc_n, calloc_from, ty_arg, decode_err, errors):
+    body = fn_body(src, cname, sig)
+    st = parse_body(body)
+    want = f'{cname} has a shape the translator does not understand: '
+    pro = [('decl', 'char*', 'end', ('call', 'string_literal_end', [('bin', '+', ('id', 'quote'), ('num', 1, ''))])),
+           ('decl', elem_c + '*', 'buf', ('call', 'calloc', [('num', calloc_n, ''), ('bin', '-', ('id', 'end'), ('id', calloc_from))])),
+           ('decl', 'int', 'len', ('num', 0, ''))]
+    if len(st) != 8 or st[:3] != pro:
+        raise ExtractError(want + 'prologue')
+    f = st[3]
+    if (f[0] != 'for' or f[1] != ('decl', 'char*', 'p', ('bin', '+', ('id', 'quote'), ('num', 1, '')))
+            or f[2] != ('bin', '<', ('id', 'p'), ('id', 'end')) or f[3] is not None):
+        raise ExtractError(want + 'loop header')
+    tyexpr = ('id', ty_arg)
+    strv = ('id', 'buf') if elem_c == 'char' else ('cast', 'char*', ('id', 'buf'))
+    epi = [('decl', 'Token*', 'tok', ('call', 'new_token', [('id', 'TK_STR'), ('id', 'start'), ('bin', '+', ('id', 'end'), ('num', 1, ''))])),
+           ('expr', ('assign', '=', ('mem', '->', ('id', 'tok'), 'ty'), ('call', 'array_of', [tyexpr, ('bin', '+', ('id', 'len'), ('num', 1, ''))]))),
+           ('expr', ('assign', '=', ('mem', '->', ('id', 'tok'), 'str'), strv)),
+           ('ret', ('id', 'tok'))]
+    if st[4:] != epi:
+        raise ExtractError(want + 'epilogue')
+    rb = cursor.ReaderBody(cname, elem_bits, decode_err, errors)
+    lname = f'{lean_name}_loop1'
+    body_txt = rb.run(unblock(f[4]), 'i', {}, lambda cur, env: f'{lname} p endp fuel ({cur}) acc')
+    out = f'def {lname} (p : List (BitVec 8)) (endp : Nat) : Nat → Nat → List Nat → Except ReadErr (List Nat)\n'
+    out += '  | 0, i, acc => .ok acc.reverse\n'
+    out += f'  | fuel + 1, i, acc =>\n    if i < endp then\n{cursor.indent(body_txt, 6)}\n    else .ok acc.reverse\n\n'
+    out += (f'/-- tokenize.c `{cname}(start, quote…)` with `quote` = text + `quote`: the code units stored in `buf` (each truncated to the\n'
+            f'    {elem_bits}-bit element type) and the index after the closing quote (`tok->len` = that index - start, `array_len` = units + 1);\n'
+            f'    every iteration consumes at least one byte, so `endp + 1` units of fuel suffice -/\n')
+    out += f'def {lean_name} (p : List (BitVec 8)) (quote : Nat) : Except ReadErr (List Nat × Nat) :=\n'
+    out += '  match stringLiteralEnd p (quote + 1) with\n  | .error e => .error e\n  | .ok endp =>\n'
+    out += f'    match {lname} p endp (endp + 1) (quote + 1) [] with\n    | .error e => .error e\n    | .ok units => .ok (units, endp + 1)\n'
+    return out
+
+
+def gen_char_reader(src, decode_err, errors):
+    cname = 'read_char_literal'
+    body = fn_body(src, cname, r'^static\s+Token\s*\*\s*read_char_literal\s*\(\s*char\s*\*\s*start\s*,\s*char\s*\*\s*quote\s*,\s*Type\s*\*\s*ty\s*\)\s*\{')
+    st = parse_body(body)
+    want = f'{cname} has a shape the translator does not understand: '
+    if not st or st[0] != ('decl', 'char*', 'p', ('bin', '+', ('id', 'quote'), ('num', 1, ''))):
+        raise ExtractError(want + 'prologue')
+    # ... ; char *end = strchr(p, '\''); if (!end) error_at(p, "..."); Token *tok = new_token(TK_NUM, start, end + 1); tok->val = c; tok->ty = ty; return tok;
+    try:
+        k = st.index(('decl', 'char*', 'end', ('call', 'strchr', [('id', 'p'), ('chr', 39)])))
+    except ValueError:
+        raise ExtractError(want + "`char *end = strchr(p, '\\'');` not found")
+    tailst = st[k + 1:]
+    if (len(tailst) != 5 or tailst[0][0] != 'if' or tailst[0][1] != ('un', '!', ('id', 'end')) or tailst[0][3] is not None
+            or unblock(tailst[0][2])[0][0] != 'expr' or unblock(tailst[0][2])[0][1][0] != 'call' or unblock(tailst[0][2])[0][1][1] != 'error_at'
+            or tailst[1] != ('decl', 'Token*', 'tok', ('call', 'new_token', [('id', 'TK_NUM'), ('id', 'start'), ('bin', '+', ('id', 'end'), ('num', 1, ''))]))
+            or tailst[2] != ('expr', ('assign', '=', ('mem', '->', ('id', 'tok'), 'val'), ('id', 'c')))
+            or tailst[3] != ('expr', ('assign', '=', ('mem', '->', ('id', 'tok'), 'ty'), ('id', 'ty')))
+            or tailst[4] != ('ret', ('id', 'tok'))):
+        raise ExtractError(want + 'epilogue')
+    nf = cursor.err_ctor(unblock(tailst[0][2])[0][1][2][1][1])
+    if nf not in errors:
+        errors.append(nf)
+    rb = cursor.ReaderBody(cname, 32, decode_err, errors)
+
+    def tail(cur, env):
+        if env.get('c', (None, None))[0] is None:
+            raise ExtractError(want + 'the value is not assigned on every path')
+        return (f'match strchrFrom p 39#8 (p.length + 1) ({cur}) with\n| none => .error .{nf}\n| some e => .ok (c, e)')
+    txt = rb.run(st[1:k], 'quote + 1', {}, tail)
+    out = ('/-- tokenize.c `read_char_literal(start, quote, ty)` with `quote` = text + `quote`: the `int c` (`tok->val` before the per-prefix\n'
+           '    post-processing) and the index of the closing quote found by `strchr` -/\n')
+    out += f'def readCharLiteral (p : List (BitVec 8)) (quote : Nat) : Except ReadErr (BitVec 32 × Nat) :=\n{cursor.indent(txt)}\n'
     return out
 
 
